@@ -6,6 +6,7 @@ import (
 	"math/big"
 	"os"
 	"path/filepath"
+	"regexp"
 	"sort"
 	"strconv"
 	"strings"
@@ -45,6 +46,10 @@ type ETypeAssert struct {
 	X    Expr
 	Type string
 }
+type ERange struct{ Lo, Hi *big.Int } // only in inst hints
+
+var rangeHint = regexp.MustCompile(`^(\w+): (\d+)\.\.(\d+)$`)
+
 type EForall struct {
 	Var, Type string
 	Lo, Hi    *big.Int // optional finite expansion range [Lo,Hi)
@@ -485,6 +490,7 @@ type Specs struct {
 	SpecFuncs   map[string]*SpecFunc
 	Lemmas      []*Lemma
 	Axioms      []*Axiom
+	GlobalInsts map[string][]Clause
 	SharedTypes map[string]bool // type names considered shared between goroutines (C17)
 	Files       []string
 }
@@ -619,22 +625,39 @@ func (S *Specs) LoadFile(path string, extern bool) error {
 				}
 			}
 		case "inst":
-			// inst <clause-name>: <var>: <term>
+			// inst <clause-name>: <var>: <term>   |   inst <clause-name>: <var>: <lo>..<hi>
 			i := strings.Index(rest, ": ")
-			if i < 0 || cur == nil {
+			if i < 0 {
 				return fail(fmt.Errorf("bad inst hint"))
 			}
-			c, err := parseClause(strings.TrimSpace(rest[i+2:]))
-			if err != nil {
-				return fail(err)
+			body := strings.TrimSpace(rest[i+2:])
+			var c Clause
+			if m := rangeHint.FindStringSubmatch(body); m != nil {
+				lo, _ := parseBig(m[2])
+				hi, _ := parseBig(m[3])
+				c = Clause{Name: m[1], Src: body, E: ERange{lo, hi}}
+			} else {
+				var err error
+				c, err = parseClause(body)
+				if err != nil {
+					return fail(err)
+				}
 			}
 			if c.Name == "" {
 				return fail(fmt.Errorf("inst hint needs '<clause>: <var>: <term>'"))
 			}
-			if cur.Insts == nil {
-				cur.Insts = map[string][]Clause{}
+			target := &S.GlobalInsts
+			if cur != nil && !strings.HasPrefix(rest[:i], "lemma ") {
+				if cur.Insts == nil {
+					cur.Insts = map[string][]Clause{}
+				}
+				cur.Insts[rest[:i]] = append(cur.Insts[rest[:i]], c)
+			} else {
+				if *target == nil {
+					*target = map[string][]Clause{}
+				}
+				(*target)[strings.TrimPrefix(rest[:i], "lemma ")] = append((*target)[strings.TrimPrefix(rest[:i], "lemma ")], c)
 			}
-			cur.Insts[rest[:i]] = append(cur.Insts[rest[:i]], c)
 		case "pure":
 			cur.Pure = true
 			cur.HasAssign = true
